@@ -55,6 +55,7 @@ class MultiTrackLargeVocabularyNotelikeTokeniser:
         if self.step_sizes is None:
             self.step_sizes = get_default_step_sizes(lower_bound_shift=1)
         self.step_sizes.sort()
+        self._bridgeable_rests = [True]
         if self.note_values is None:
             self.note_values = get_default_note_values()
         self.note_values.sort()
@@ -102,7 +103,15 @@ class MultiTrackLargeVocabularyNotelikeTokeniser:
         if not len(sequences_bar) == self.num_tracks:
             raise TokenisationException("Number of sequences does not match number of tracks")
 
-        # Utility function
+        # Utility functions
+        def _can_bridge(rest: int) -> bool:
+            # Whether a rest of this length is a sum of step sizes
+            while len(self._bridgeable_rests) <= rest:
+                value = len(self._bridgeable_rests)
+                self._bridgeable_rests.append(any(step_size <= value and self._bridgeable_rests[value - step_size]
+                                                  for step_size in self.step_sizes))
+            return self._bridgeable_rests[rest]
+
         def _apply_rest(rest: int):
             nonlocal tokens
             nonlocal cur_time
@@ -114,15 +123,13 @@ class MultiTrackLargeVocabularyNotelikeTokeniser:
 
             # While rest buffer not empty
             while buf_rest > 0:
-                # Check if next rest value is valid
-                if not (nxt_rest > self.step_sizes[-1] or any(nxt_rest >= step_size for step_size in self.step_sizes)):
-                    raise TokenisationException(f"Invalid remaining rest value: {nxt_rest}")
+                # Largest step size that leaves a remainder which can still be bridged by step sizes
+                rest_value = next((step_size for step_size in reversed(self.step_sizes)
+                                   if nxt_rest >= step_size and _can_bridge(nxt_rest - step_size)), None)
 
-                # Check if next rest value is larger than the largest step size
-                if nxt_rest > self.step_sizes[-1]:
-                    rest_value = self.step_sizes[-1]
-                else:
-                    rest_value = next(step_size for step_size in reversed(self.step_sizes) if nxt_rest >= step_size)
+                # Check if next rest value is valid
+                if rest_value is None:
+                    raise TokenisationException(f"Invalid remaining rest value: {nxt_rest}")
 
                 # Apply rest
                 cur_time += rest_value
